@@ -57,6 +57,15 @@ Proof.
   destruct (grun (ginit ttl) evs) as [g os]. exact (proj1 H).
 Qed.
 
+(* (d), the correlator's part: put() stores the request in its first atomic piece, before its sweep - which may suspend in the
+   application's send_error hook - has run; a response processed during that suspension finds the request (fix of the
+   defect "response during the sweep of put()") *)
+Theorem C14_put_visible_at_once :
+  forall g t m now, dget t (g_calls g) = None ->
+  dget (sm_seq m) (c_store (g_corr (fst (gstep g (CBegin t (OpPut m) now)))))
+  = Some {| e_at := now; e_msg := m; e_id := g_next g |}.
+Proof. exact put_visible_at_once. Qed.
+
 (* (d) REFUTED for the session as a whole (known finding response-before-put-under-backpressure): in the
    model of _send_data / _handle_response (Model/Seq.v) the number is assigned and the PDU written
    before correlator.put; a response processed in between is not attributed and the request stays
@@ -73,5 +82,5 @@ Example C14_nonvacuous :
   let m12 := {| sm_uid := 12; sm_cmd := 21; sm_seq := 3; sm_log := 0; sm_sar := (0, 0, 0)%Z |} in
   ser_mrun_obs 1 [MBegin 1 (OpPut m10) 0 0; MBegin 1 (OpPut m11) 5 5; MBegin 2 (OpPut m12) 5 5;
                   MBegin 3 (OpGet {| rs_uid := 0; rs_cmd := 2147483652; rs_seq := 1; rs_status := 0 |}) 6 6; MResume 1 7]
-  = [10; -6; -1; -7; 3; 12; 2; 11; -8; -9]%Z.
+  = [10; -6; -1; -7; 2; 11; 3; 12; -8; -9]%Z.
 Proof. vm_compute. reflexivity. Qed.
